@@ -1,7 +1,13 @@
 #!/bin/sh
-# Run every stored behaviour-preserving refactor (seeded/refactors/C??/patch_R?.diff) through all 20 checks at its base revision.
-# Prints the VIOLATION (false alarm: a bug of the checks) and UNDECIDED lines; scratch exports are made and removed by tools/seedcheck.py.
+# Run every stored behaviour-preserving refactor (seeded/refactors*/C??/patch_R?.diff) through all 20 checks at the base revision of its round
+# (seeded/refactors*/BASE_REV).  Prints the VIOLATION (false alarm: a bug of the checks) and UNDECIDED lines; scratch exports are made and removed by tools/seedcheck.py.
+# usage: refactor_probe.sh [outdir] [set ...]      sets default to every seeded/refactors* directory
 OUT=${1:-/root/scratch/refactor-probe}
+shift 2>/dev/null
+SETS=${@:-$(ls -d /verif/seeded/refactors*)}
 mkdir -p $OUT
-ls /verif/seeded/refactors/C*/patch_R*.diff | xargs -P 12 -I{} sh -c 'f={}; p=$(echo $f | sed "s|.*/\(C[0-9]*\)/patch_\(R[0-9]\).diff|\1-\2|"); SEEDCHECK_REV=c27de59 timeout 1500 /venv/bin/python /verif/tools/seedcheck.py $f > '$OUT'/all-$p.txt 2>&1'
-for f in $OUT/all-C*.txt; do t=$(basename $f .txt | sed s/all-//); grep "VIOLATION\|UNDECIDED\|PATCH\|Traceback" $f | grep -v "UNIT-2 ConvolvedFluxes.interpolate clamp bound" | sed "s/^/$t: /" | cut -c1-330; done
+for S in $SETS; do
+  REV=$(cat $S/BASE_REV); T=$(basename $S)
+  ls $S/C*/patch_R*.diff | xargs -P 12 -I{} sh -c 'f={}; p=$(echo $f | sed "s|.*/\(C[0-9]*\)/patch_\(R[0-9]\).diff|\1-\2|"); SEEDCHECK_REV='$REV' timeout 1500 /venv/bin/python /verif/tools/seedcheck.py $f > '$OUT'/'$T'-$p.txt 2>&1'
+  for f in $OUT/$T-C*.txt; do t=$(basename $f .txt | sed "s/^$T-//"); grep "VIOLATION\|UNDECIDED\|PATCH\|Traceback" $f | { if [ "$REV" = c27de59 ]; then grep -v "UNIT-2 ConvolvedFluxes.interpolate clamp bound"; else cat; fi; } | sed "s/^/$T $t: /" | cut -c1-340; done
+done
